@@ -79,6 +79,7 @@ type prover struct {
 	pendingNE  [][2]linExpr
 	idxPending []ssa.Value
 	inRefresh  bool
+	phiDepth   int
 }
 
 // refresh turns pending disequalities into inequalities once one side is known to bound the other.
@@ -802,7 +803,50 @@ func (p *prover) lenFacts(key string, x ssa.Value) {
 			}
 		}
 	case *ssa.Phi:
-		// len of a φ of slices: if every incoming value is a suffix slice of the φ itself or has a known length relation … skipped
+		// a merge φ (not a loop header) whose incoming lengths are all "the same linear terms plus a constant":
+		// its length lies between the smallest and the largest of them (e.g. φ(s, append(s, x)): len(s) <= len(φ) <= len(s)+1)
+		if isLoopHeaderPhi(t) || p.phiDepth > 2 || p.subst != nil {
+			return
+		}
+		p.phiDepth++
+		defer func() { p.phiDepth-- }()
+		var first linExpr
+		var minC, maxC int64
+		for i, ev := range t.Edges {
+			if ev == ssa.Value(t) {
+				return
+			}
+			le := p.lenOf(ev)
+			if i == 0 {
+				first, minC, maxC = le, le.c, le.c
+				continue
+			}
+			if len(le.t) != len(first.t) {
+				return
+			}
+			for k, v := range le.t {
+				if first.t[k] != v {
+					return
+				}
+			}
+			if le.c < minC {
+				minC = le.c
+			}
+			if le.c > maxC {
+				maxC = le.c
+			}
+		}
+		if len(t.Edges) == 0 {
+			return
+		}
+		lo, hi := first, first
+		lo.c, hi.c = minC, maxC
+		lo = newLin(0).add(lo, 1)
+		lo.c = minC
+		hi = newLin(0).add(hi, 1)
+		hi.c = maxC
+		p.ge(e, lo)
+		p.ge(hi, e)
 	}
 }
 
